@@ -1,9 +1,9 @@
 package stablecomp
 
 import (
-	"strings"
 	"bytes"
 	"fmt"
+	"strings"
 	"testing"
 
 	"google.golang.org/protobuf/proto"
